@@ -1699,3 +1699,68 @@ func badPosOr(a, b token.Pos) token.Pos {
 	}
 	return b
 }
+
+// preSignHandsBackWhatItGot: a codec's PreSign stands between the entry and the bytes that are signed and
+// verified. Only a codec with a link key has a reason to hand back another entry than the one it was given
+// (the links are sealed into a copy); without the key the entry that is verified is the entry that was
+// decoded. An entry copy is not the identity on every entry (it de-duplicates the link lists), so a copy
+// taken before the key is known to be there changes the bytes a keyless codec verifies.
+func preSignHandsBackWhatItGot(c *Ctx, r *Report, rule string) {
+	p := c.P
+	n := 0
+	for _, fn := range p.Fns {
+		if fn.Body == nil || fn.Decl == nil || fn.Decl.Recv == nil || fn.Decl.Name.Name != "PreSign" {
+			continue
+		}
+		par, rcv := paramObjAny(fn, 0), recvObj(p, fn)
+		if par == nil || rcv == nil {
+			continue
+		}
+		n++
+		keyKnown := func(f Facts) bool {
+			for k := range f {
+				if strings.HasPrefix(k, "nn|"+p.ID(rcv)+".") {
+					return true
+				}
+			}
+			return false
+		}
+		fl := NewNilEngine(p, c.CG).nilFlow(fn)
+		bad := token.NoPos
+		what := ""
+		fl.Visit(func(_ *cfgBlk, nd ast.Node, before Facts) {
+			if keyKnown(before) {
+				return
+			}
+			walkNoLit(nd, func(m ast.Node) bool {
+				switch x := m.(type) {
+				case *ast.AssignStmt:
+					for _, l := range x.Lhs {
+						if id, ok := ast.Unparen(l).(*ast.Ident); ok && p.ObjOf(fn, id) == par && !bad.IsValid() {
+							bad, what = x.Pos(), "replaces the entry it was given"
+						}
+					}
+				case *ast.ReturnStmt:
+					if len(x.Results) == 0 {
+						return true
+					}
+					e := ast.Unparen(x.Results[0])
+					if isNilIdent(e) {
+						return true
+					}
+					if id, ok := e.(*ast.Ident); ok && p.ObjOf(fn, id) == par {
+						return true
+					}
+					if !bad.IsValid() {
+						bad, what = x.Pos(), "hands back another entry than the one it was given"
+					}
+				}
+				return true
+			})
+		})
+		r.Check(!bad.IsValid(), rule, r.Key(rule, fn, "presign-identity", ""), badPosOr(bad, fn.Decl.Pos()),
+			"PreSign replaces the entry only where a field of the codec (the link key) is known to be set",
+			fmt.Sprintf("%s %s on a path where no field of the codec was found set: a codec without a link key then signs and verifies a copy, and an entry copy de-duplicates the link lists — an entry signed over repeated links no longer verifies, or is signed over other bytes than the ones its block carries", fn.Name, what))
+	}
+	r.Floor(rule, "PreSign implementations", n, 1)
+}
